@@ -366,10 +366,11 @@ pub fn sweep(tier: Tier) -> Sweep {
         }
     }
     // long periodic histories (zero-variance sample sets, saturated servo): every pattern of
-    // period 1..3 over the pruned alphabet repeated to 24 calls, and (E2 style) every single
+    // period 1..3 over the pruned alphabet repeated to 80 calls, and (E2 style) every single
     // substitution into the period-1 (quick) / period-1-and-2 (thorough) histories
     {
-        const LEN: usize = 24;
+        // long enough for the 32-slot measurement-noise window to wrap (twice for peer delays)
+        const LEN: usize = 80;
         let mut hists: Vec<Vec<FEv>> = vec![];
         for period in 1..=tier.pick(2usize, 3usize) {
             for pat in enumerate(&pruned, period) {
@@ -380,7 +381,7 @@ pub fn sweep(tier: Tier) -> Sweep {
         for period in 1..=tier.pick(1usize, 2usize) {
             for pat in enumerate(&pruned, period) {
                 let base: Vec<FEv> = (0..LEN).map(|i| pat[i % period]).collect();
-                for pos in [0usize, 1, 5, 11, 12, 23] {
+                for pos in [0usize, 1, 5, 11, 12, 23, 33, 64, 79] {
                     for e in &pruned {
                         if *e != base[pos] {
                             let mut h = base.clone();
